@@ -238,16 +238,23 @@ pub fn rules_body(rules: &[(String, String)]) -> Vec<u8> {
 }
 
 thread_local! {
-    static BZ_CACHE: std::cell::RefCell<HashMap<Vec<u8>, Vec<u8>>> = std::cell::RefCell::new(HashMap::new());
+    static BZ_CACHE: std::cell::RefCell<HashMap<(u8, Vec<u8>), Vec<u8>>> = std::cell::RefCell::new(HashMap::new());
+    /// bzip2 block size of the reference server, in units of 100 kB (1..=9; 9 is the library default). A reply longer than
+    /// one block is a multi-block stream.
+    static BZ_LEVEL: std::cell::Cell<u8> = const { std::cell::Cell::new(9) };
 }
 
+/// Set the reference server's bzip2 block size (100 kB units) for the frames built on this thread from now on.
+pub fn set_bz_level(level: u8) { BZ_LEVEL.with(|l| l.set(level.clamp(1, 9))) }
+
 fn bz(data: &[u8]) -> Vec<u8> {
+    let level = BZ_LEVEL.with(|l| l.get());
     BZ_CACHE.with(|c| {
-        if let Some(v) = c.borrow().get(data) {
+        if let Some(v) = c.borrow().get(&(level, data.to_vec())) {
             return v.clone();
         }
-        let v = bz2_compress(data);
-        c.borrow_mut().insert(data.to_vec(), v.clone());
+        let v = crate::rsm::bz2_compress_level(data, level);
+        c.borrow_mut().insert((level, data.to_vec()), v.clone());
         v
     })
 }
